@@ -213,21 +213,32 @@ Proof.
   apply map_ext. intro; apply dx_text_para.
 Qed.
 
+Lemma forallb_map_true {A B} (p : B -> bool) (g : A -> B) l :
+  (forall a, p (g a) = true) -> forallb p (map g l) = true.
+Proof. intro H; induction l; cbn [map forallb]; [reflexivity|]. rewrite H, IHl. reflexivity. Qed.
+
+(* all children carry the wanted tag: through(parent, tag) = the children *)
+Lemma docx_through_map {A} T tg (g : A -> xml) l :
+  (forall a, tag_is T (g a) = true) -> docx_through T (E tg (map g l)) = map g l.
+Proof.
+  intro H. unfold docx_through, E. apply collect_all_leaves. apply forallb_map_true, H.
+Qed.
+
 Lemma dx_table_ftable g : docx_table (docx_r_ftable g) = fgrid_text g.
 Proof.
-  unfold docx_table, docx_r_ftable, fgrid_text. rewrite findall_E.
-  rewrite filter_map_true by (intro; reflexivity).
+  unfold docx_table, docx_r_ftable, fgrid_text.
+  rewrite docx_through_map by (intro; reflexivity).
   rewrite map_map. apply map_ext. intro r.
-  rewrite findall_E, filter_map_true by (intro; reflexivity).
+  rewrite docx_through_map by (intro; reflexivity).
   rewrite map_map. apply map_ext. intro; apply dx_cell_fcell.
 Qed.
 
 Lemma dx_table_table g : docx_table (docx_r_table g) = map (map cell_text_all) g.
 Proof.
-  unfold docx_table, docx_r_table. rewrite findall_E.
-  rewrite filter_map_true by (intro; reflexivity).
+  unfold docx_table, docx_r_table.
+  rewrite docx_through_map by (intro; reflexivity).
   rewrite map_map. apply map_ext. intro r.
-  rewrite findall_E, filter_map_true by (intro; reflexivity).
+  rewrite docx_through_map by (intro; reflexivity).
   rewrite map_map. apply map_ext. intro; apply dx_cell_cell.
 Qed.
 
@@ -243,16 +254,25 @@ Proof.
     apply flat_map_mapf.
 Qed.
 
+(* a rendered top-level table: itself, then its nested tables, each read by docx_table *)
+Lemma dx_tables_of_table g :
+  map docx_table (iter_tag W_TBL (docx_r_table g))
+  = map (map cell_text_all) g :: map fgrid_text (nested_of_grid g).
+Proof.
+  rewrite dx_TBL_table. cbn [map]. rewrite dx_table_table, map_map. f_equal.
+  apply map_ext. intro; apply dx_table_ftable.
+Qed.
+
 (* D2: the walker returns every table, nested ones included, in document pre-order *)
 Theorem docx_tables_preorder : forall d, docx_tables (docx_r_body d) = spec_preorder d.
 Proof.
   intro d. unfold docx_tables, docx_r_body, spec_preorder, top_tables. rewrite xchildren_E.
   rewrite flat_map_map', flat_map_flat_map'. apply flat_map_ext'. intros [p|g].
-  - cbn [docx_r_block flat_map]. unfold docx_r_para. rewrite tag_is_E. tagc. reflexivity.
+  - cbn [docx_r_block flat_map]. unfold docx_r_para. rewrite tag_is_E.
+    change (xtag (E W_P (map docx_r_run p))) with W_P. tagc. reflexivity.
   - cbn [docx_r_block flat_map]. rewrite app_nil_r.
     replace (tag_is W_TBL (docx_r_table g)) with true by (vm_compute; reflexivity).
-    rewrite dx_TBL_table. cbn [map]. rewrite dx_table_table, map_map. f_equal.
-    apply map_ext. intro; apply dx_table_ftable.
+    apply dx_tables_of_table.
 Qed.
 
 Lemma flat_cell c :
@@ -323,6 +343,133 @@ Example no_nested_sat :
   /\ docx_tables (docx_r_body [BPara [s "t"];
                     BTable [[ [CPara [s "a"]]; [CPara [s "b"]] ]; [ [CPara [s "c"]]; [CPara [s "d"; s "e"]] ]]])
      = [ [[s "a"; s "b"]; [s "c"; s "de"]] ].
+Proof. split; vm_compute; reflexivity. Qed.
+
+(* ------------------------------------------------------------------ DOCX: content controls / customXml *)
+Definition okc (leaf : str) (chain : list str) : bool := chain_ok leaf DOCX_WRAPPERS chain.
+
+Theorem docx_row_cells_wrapped : forall t a x l (segs : list (list str * list xml)),
+  forallb (fun sg => okc W_TC (fst sg) && forallb (tag_is W_TC) (snd sg)) segs = true ->
+  docx_through W_TC (Elem t a x (flat_map (fun sg => wrap_chain (fst sg) (snd sg)) segs) l)
+  = flat_map snd segs.
+Proof. intros. unfold docx_through. apply collect_through_segments. assumption. Qed.
+
+Theorem docx_table_rows_wrapped : forall t a x l (segs : list (list str * list xml)),
+  forallb (fun sg => okc W_TR (fst sg) && forallb (tag_is W_TR) (snd sg)) segs = true ->
+  docx_through W_TR (Elem t a x (flat_map (fun sg => wrap_chain (fst sg) (snd sg)) segs) l)
+  = flat_map snd segs.
+Proof. intros. unfold docx_through. apply collect_through_segments. assumption. Qed.
+
+Theorem docx_tables_through_wrapped : forall t a x l (segs : list (list str * list xml)),
+  forallb (fun sg => okc W_TBL (fst sg) && forallb (tag_is W_TBL) (snd sg)) segs = true ->
+  docx_through W_TBL (Elem t a x (flat_map (fun sg => wrap_chain (fst sg) (snd sg)) segs) l)
+  = flat_map snd segs.
+Proof. intros. unfold docx_through. apply collect_through_segments. assumption. Qed.
+
+Lemma segs_all_leaves leaf (segs : list (list str * list xml)) :
+  forallb (fun sg => okc leaf (fst sg) && forallb (tag_is leaf) (snd sg)) segs = true ->
+  forallb (tag_is leaf) (flat_map snd segs) = true.
+Proof.
+  induction segs as [|sg segs IH]; intro H; [reflexivity|].
+  cbn [forallb] in H. apply andb_true_iff in H as [H1 H2]. apply andb_true_iff in H1 as [_ Hl].
+  cbn [flat_map]. rewrite forallb_app, Hl. exact (IH H2).
+Qed.
+
+(* rows inside wrapper chains: the same table as with the rows as direct children *)
+Theorem docx_table_wrapped_eq : forall (segs : list (list str * list xml)),
+  forallb (fun sg => okc W_TR (fst sg) && forallb (tag_is W_TR) (snd sg)) segs = true ->
+  docx_table (E W_TBL (flat_map (fun sg => wrap_chain (fst sg) (snd sg)) segs))
+  = docx_table (E W_TBL (flat_map snd segs)).
+Proof.
+  intros segs H. unfold docx_table, E. rewrite (docx_table_rows_wrapped _ _ _ _ segs H).
+  unfold docx_through at 3. rewrite collect_all_leaves by (apply segs_all_leaves, H). reflexivity.
+Qed.
+
+(* and the same one level down: cells inside wrapper chains *)
+Theorem docx_row_wrapped_eq : forall (segs : list (list str * list xml)),
+  forallb (fun sg => okc W_TC (fst sg) && forallb (tag_is W_TC) (snd sg)) segs = true ->
+  map docx_cell (docx_through W_TC (E W_TR (flat_map (fun sg => wrap_chain (fst sg) (snd sg)) segs)))
+  = map docx_cell (flat_map snd segs).
+Proof. intros segs H. unfold E. rewrite (docx_row_cells_wrapped _ _ _ _ segs H). reflexivity. Qed.
+
+(* leaves of any tags under a wrapper chain: the chain is transparent *)
+Lemma collect_chain_any leaf chain (L : list xml) :
+  okc leaf chain = true ->
+  flat_map (collect_child leaf DOCX_WRAPPERS) (wrap_chain chain L)
+  = flat_map (collect_child leaf DOCX_WRAPPERS) L.
+Proof.
+  unfold okc. induction chain as [|w ch IH]; intro H; [reflexivity|].
+  cbn [chain_ok forallb] in H. apply andb_true_iff in H as [Hw Hch].
+  apply andb_true_iff in Hw as [Hm Hn]. apply negb_true_iff in Hn.
+  cbn [wrap_chain flat_map]. rewrite app_nil_r. unfold collect_child at 1.
+  rewrite tag_is_E, Hn. change (xtag (E w (wrap_chain ch L))) with w. rewrite Hm.
+  unfold E. rewrite collect_through_unfold. exact (IH Hch).
+Qed.
+
+Lemma collect_TBL_block b :
+  collect_child W_TBL DOCX_WRAPPERS (docx_r_block b)
+  = match b with BPara _ => [] | BTable g => [docx_r_table g] end.
+Proof.
+  destruct b as [p|g]; cbn [docx_r_block].
+  - apply collect_child_other; vm_compute; reflexivity.
+  - unfold collect_child.
+    replace (tag_is W_TBL (docx_r_table g)) with true by (vm_compute; reflexivity). reflexivity.
+Qed.
+
+(* a whole document inside a body-level content control / customXml chain *)
+Theorem docx_tables_body_wrapped : forall (chain : list str) (d : doc),
+  chain <> [] -> okc W_TBL chain = true ->
+  docx_tables (E W_BODY (wrap_chain chain (map docx_r_block d))) = spec_preorder d.
+Proof.
+  intros [|w ch] d Hne H; [congruence|]. clear Hne.
+  unfold okc in H. cbn [chain_ok forallb] in H. apply andb_true_iff in H as [Hw Hch].
+  apply andb_true_iff in Hw as [Hm Hn]. apply negb_true_iff in Hn.
+  unfold docx_tables. rewrite xchildren_E. cbn [wrap_chain flat_map]. rewrite app_nil_r.
+  rewrite tag_is_E, Hn. change (xtag (E w (wrap_chain ch (map docx_r_block d)))) with w. rewrite Hm.
+  unfold docx_through, E. rewrite collect_through_unfold.
+  rewrite (collect_chain_any W_TBL ch _ Hch).
+  unfold spec_preorder, top_tables.
+  rewrite flat_map_map', !flat_map_flat_map'. apply flat_map_ext'. intro b.
+  rewrite collect_TBL_block. destruct b as [p|g]; [reflexivity|].
+  cbn [flat_map]. rewrite !app_nil_r. apply dx_tables_of_table.
+Qed.
+
+Example docx_wrapper_chains_ok :
+  okc W_TBL [s "w:sdt"; s "w:sdtContent"] = true /\ okc W_TBL [s "w:customXml"] = true
+  /\ okc W_TR [s "w:sdt"; s "w:sdtContent"] = true /\ okc W_TC [s "w:customXml"; s "w:sdt"; s "w:sdtContent"] = true.
+Proof. repeat split; vm_compute; reflexivity. Qed.
+
+Corollary docx_tables_body_sdt : forall d,
+  docx_tables (E W_BODY [E (s "w:sdt") [E (s "w:sdtContent") (map docx_r_block d)]]) = spec_preorder d.
+Proof.
+  intro d. apply (docx_tables_body_wrapped [s "w:sdt"; s "w:sdtContent"] d); [discriminate | vm_compute; reflexivity].
+Qed.
+
+Corollary docx_tables_body_customxml : forall d,
+  docx_tables (E W_BODY [E (s "w:customXml") (map docx_r_block d)]) = spec_preorder d.
+Proof.
+  intro d. apply (docx_tables_body_wrapped [s "w:customXml"] d); [discriminate | vm_compute; reflexivity].
+Qed.
+
+(* the walker before the fix lost a table inside a body-level content control *)
+Definition docx_sdt_body : xml :=
+  E W_BODY [E (s "w:sdt") [E (s "w:sdtPr") []; E (s "w:sdtContent") [docx_r_ftable [[ [[s "in sdt"]] ]]]]].
+
+Theorem docx_tables_direct_lost_wrapped :
+  exists body, docx_tables_direct body = [] /\ docx_tables body = [[[s "in sdt"]]].
+Proof. exists docx_sdt_body. split; vm_compute; reflexivity. Qed.
+
+(* a row and a cell wrapped in w:sdt: dropped before the fix, returned in place after it *)
+Definition docx_sdt_row_table : xml :=
+  E W_TBL [E W_TR [docx_r_fcell [[s "h"]]];
+           E (s "w:sdt") [E (s "w:sdtPr") [];
+             E (s "w:sdtContent")
+               [E W_TR [docx_r_fcell [[s "row in sdt"]];
+                        E (s "w:sdt") [E (s "w:sdtContent") [docx_r_fcell [[s "cell in sdt"]]]]]]]].
+
+Example docx_wrapped_row_cell :
+  docx_tables_direct (E W_BODY [docx_sdt_row_table]) = [[[s "h"]]]
+  /\ docx_tables (E W_BODY [docx_sdt_row_table]) = [[[s "h"]; [s "row in sdt"; s "cell in sdt"]]].
 Proof. split; vm_compute; reflexivity. Qed.
 
 (* ------------------------------------------------------------------ PPTX *)
@@ -819,6 +966,17 @@ Print Assumptions docx_tables_preorder.
 Print Assumptions docx_toplevel_refuted.
 Print Assumptions docx_adjacent.
 Print Assumptions no_nested_sat.
+Print Assumptions docx_d0_value.
+Print Assumptions docx_row_cells_wrapped.
+Print Assumptions docx_table_rows_wrapped.
+Print Assumptions docx_tables_through_wrapped.
+Print Assumptions docx_table_wrapped_eq.
+Print Assumptions docx_row_wrapped_eq.
+Print Assumptions docx_tables_body_wrapped.
+Print Assumptions docx_tables_body_sdt.
+Print Assumptions docx_tables_body_customxml.
+Print Assumptions docx_tables_direct_lost_wrapped.
+Print Assumptions docx_wrapped_row_cell.
 Print Assumptions pptx_table_roundtrip.
 Print Assumptions pptx_table_stripped.
 Print Assumptions odf_text_para.
